@@ -16,6 +16,36 @@ struct PoolRegion {
     file: File,
 }
 
+/// (new bits, some bit cleared, guard bytes intact) of the dirty log since `before`; clears the window afterwards
+fn log_diff(guard: &Option<(File, u64, u64, u64)>, before: &Option<Vec<u8>>) -> (Vec<u64>, bool, bool) {
+    let mut newbits: Vec<u64> = Vec::new();
+    let mut cleared = false;
+    let mut guard_ok = true;
+    if let (Some((f, off, size, total)), Some(before)) = (guard.as_ref(), before.as_ref()) {
+        let after = file_read_at(f, *off, *size as usize);
+        for (i, (a, b)) in after.iter().zip(before.iter()).enumerate() {
+            if a != b {
+                for bit in 0..8 {
+                    if (a >> bit) & 1 == 1 && (b >> bit) & 1 == 0 {
+                        newbits.push(i as u64 * 8 + bit);
+                    }
+                    if (a >> bit) & 1 == 0 && (b >> bit) & 1 == 1 {
+                        cleared = true;
+                    }
+                }
+            }
+        }
+        let g1 = file_read_at(f, 0, *off as usize);
+        let g2 = file_read_at(f, off + size, (*total - off - size) as usize);
+        guard_ok = g1.iter().all(|x| *x == 0xAA) && g2.iter().all(|x| *x == 0xAA);
+        file_write_at(f, *off, &vec![0u8; *size as usize]);
+    }
+    (newbits, cleared, guard_ok)
+}
+fn log_snapshot(guard: &Option<(File, u64, u64, u64)>) -> Option<Vec<u8>> {
+    guard.as_ref().map(|(f, off, size, _)| file_read_at(f, *off, (*size).min(1 << 16) as usize))
+}
+
 fn eventfd_count(e: &EventFd) -> u64 {
     e.read().unwrap_or(0)
 }
@@ -40,6 +70,57 @@ pub fn run_case<V: VringT<GM> + Clone + Send + Sync + 'static>(case: &Value, tra
     trace.emit(json!({"ev": "reset", "id": case["id"], "nq": nq, "maxq": cfg.maxq, "masks": cfg.masks, "features": bits(cfg.features),
         "pf": bits(cfg.pf), "vring": case["vring"].as_str().unwrap_or("rwlock"), "adapter": adapter, "pool": if case["pool"].is_null() { json!([]) } else { case["pool"].clone() }, "exit": cfg.exit}));
     let mut log_guard: Option<(File, u64, u64, u64)> = None; // file, mmap_off, mmap_size, total
+    if let Some(st) = case.get("stress") {
+        // C15 race clause: n threads mark distinct pages whose bits share one log byte
+        let n = st["threads"].as_u64().unwrap_or(8) as usize;
+        let iters = st["iters"].as_u64().unwrap_or(10000);
+        rig.negotiate(0, (1 << 1) | (1 << 3) | (1 << 15));
+        let f = memfd("stressmem", 16 * 4096);
+        let mut body = 1u32.to_le_bytes().to_vec();
+        body.extend_from_slice(&0u32.to_le_bytes());
+        for x in [0u64, 16 * 4096, 0x7000_0000, 0] {
+            body.extend_from_slice(&x.to_le_bytes());
+        }
+        let s1 = rig.peer.request(5, &body, &[f.as_raw_fd()], false).status;
+        let lf = memfd("stresslog", 4096);
+        let mut lb = 4096u64.to_le_bytes().to_vec();
+        lb.extend_from_slice(&0u64.to_le_bytes());
+        let s2 = rig.peer.request(6, &lb, &[lf.as_raw_fd()], true).status;
+        let gm = rig.tb.mem.lock().unwrap().clone();
+        let mut lost = 0u64;
+        if let (Some(gm), true) = (gm, s1 == "ok" && s2 == "ok") {
+            let bar = std::sync::Arc::new(std::sync::Barrier::new(n + 1));
+            let stop = std::sync::Arc::new(std::sync::atomic::AtomicBool::new(false));
+            let mut hs = Vec::new();
+            for t in 0..n {
+                let (gm, bar, stop) = (gm.clone(), bar.clone(), stop.clone());
+                hs.push(std::thread::spawn(move || loop {
+                    bar.wait();
+                    if stop.load(std::sync::atomic::Ordering::SeqCst) {
+                        break;
+                    }
+                    let _ = write_guest(&gm, (t as u64) * 4096 + 7, &[1u8]);
+                    bar.wait();
+                }));
+            }
+            let want: u16 = if n >= 16 { 0xffff } else { (1u16 << n) - 1 };
+            for _ in 0..iters {
+                file_write_at(&lf, 0, &[0u8, 0u8]);
+                bar.wait();
+                bar.wait();
+                let b = file_read_at(&lf, 0, 2);
+                if u16::from_le_bytes([b[0], b[1]]) != want {
+                    lost += 1;
+                }
+            }
+            stop.store(true, std::sync::atomic::Ordering::SeqCst);
+            bar.wait();
+            for h in hs {
+                let _ = h.join();
+            }
+        }
+        trace.emit(json!({"ev": "stress", "threads": n, "iters": iters, "lost": lost, "setup": format!("{s1}/{s2}")}));
+    }
     let mut listeners: Vec<std::sync::Arc<EventFd>> = Vec::new();
     for step in case["steps"].as_array().unwrap() {
         let op = step["op"].as_str().unwrap();
@@ -204,6 +285,7 @@ pub fn run_case<V: VringT<GM> + Clone + Send + Sync + 'static>(case: &Value, tra
                 let len = step["len"].as_u64().unwrap_or(16) as u32;
                 let ou0 = from_limbs(&step["oused"]);
                 let before_files: Vec<Vec<u8>> = pool.iter().map(|r| if ou0 + 12 <= r.size { file_read_at(&r.file, r.off + ou0, 12) } else { vec![] }).collect();
+                let log_before = log_snapshot(&log_guard);
                 rig.tb.script.lock().unwrap().use_ring = Some((q, idx, len));
                 for c in rig.calls[q].iter() {
                     let _ = c.read();
@@ -218,7 +300,9 @@ pub fn run_case<V: VringT<GM> + Clone + Send + Sync + 'static>(case: &Value, tra
                 let ou = from_limbs(&step["oused"]);
                 let by_file: Vec<Value> = pool.iter().map(|r| if ou + 12 <= r.size { bytes_json(&file_read_at(&r.file, r.off + ou, 12)) } else { json!([]) }).collect();
                 let changed: Vec<usize> = pool.iter().enumerate().filter(|(i, r)| ou + 12 <= r.size && file_read_at(&r.file, r.off + ou, 12) != before_files[*i]).map(|(i, _)| i).collect();
-                out = json!({"call_counts": counts, "used_by_file": by_file, "changed_files": changed, "idx": idx, "len": len});
+                let (newbits, cleared, guard_ok) = log_diff(&log_guard, &log_before);
+                out = json!({"call_counts": counts, "used_by_file": by_file, "changed_files": changed, "idx": idx, "len": len,
+                    "newbits": newbits, "cleared": cleared, "guard_ok": guard_ok});
                 status = "ok".into();
             }
             "set_log_base" => {
@@ -243,7 +327,7 @@ pub fn run_case<V: VringT<GM> + Clone + Send + Sync + 'static>(case: &Value, tra
                 let len = from_limbs(&step["len"]) as usize;
                 let gm = rig.tb.mem.lock().unwrap().clone();
                 let gpa = pool[rid].gpa.wrapping_add(o);
-                let before = log_guard.as_ref().map(|(f, off, size, _)| file_read_at(f, *off, *size as usize));
+                let before = log_snapshot(&log_guard);
                 let wrote = match gm {
                     Some(g) => {
                         let data = vec![0x5au8; len.min(1 << 22)];
@@ -254,29 +338,7 @@ pub fn run_case<V: VringT<GM> + Clone + Send + Sync + 'static>(case: &Value, tra
                     }
                     None => 0,
                 };
-                let mut newbits: Vec<u64> = Vec::new();
-                let mut cleared = false;
-                let mut guard_ok = true;
-                if let (Some((f, off, size, total)), Some(before)) = (log_guard.as_ref(), before) {
-                    let after = file_read_at(f, *off, *size as usize);
-                    for (i, (a, b)) in after.iter().zip(before.iter()).enumerate() {
-                        if a != b {
-                            for bit in 0..8 {
-                                if (a >> bit) & 1 == 1 && (b >> bit) & 1 == 0 {
-                                    newbits.push(i as u64 * 8 + bit);
-                                }
-                                if (a >> bit) & 1 == 0 && (b >> bit) & 1 == 1 {
-                                    cleared = true;
-                                }
-                            }
-                        }
-                    }
-                    let g1 = file_read_at(f, 0, *off as usize);
-                    let g2 = file_read_at(f, off + size, (*total - off - size) as usize);
-                    guard_ok = g1.iter().all(|x| *x == 0xAA) && g2.iter().all(|x| *x == 0xAA);
-                    // clear the log for the next write
-                    file_write_at(f, *off, &vec![0u8; *size as usize]);
-                }
+                let (newbits, cleared, guard_ok) = log_diff(&log_guard, &before);
                 out = json!({"wrote": wrote, "gpa": limbs(gpa), "newbits": newbits, "cleared": cleared, "guard_ok": guard_ok});
                 status = "ok".into();
             }
